@@ -100,12 +100,13 @@ func (q Question) expectedRange() (int64, int64) {
 }
 
 type Action struct {
-	Op   string `json:"op"` // start | release | advance
-	Q    int    `json:"q,omitempty"`
-	Pick int    `json:"pick,omitempty"`
-	OK   bool   `json:"ok,omitempty"`
-	Err  int    `json:"err,omitempty"`
-	TTL  int    `json:"ttl_ms,omitempty"` // start of a config caller: the cacheTTL argument it passes (ms; 0 = pint's default 1m)
+	Op    string `json:"op"` // start | release | advance
+	Q     int    `json:"q,omitempty"`
+	Pick  int    `json:"pick,omitempty"`
+	OK    bool   `json:"ok,omitempty"`
+	Err   int    `json:"err,omitempty"`
+	Match string `json:"match,omitempty"`  // release: only blocked requests whose key contains this are candidates
+	TTL   int    `json:"ttl_ms,omitempty"` // start of a config caller: the cacheTTL argument it passes (ms; 0 = pint's default 1m)
 }
 
 type Case struct {
@@ -501,6 +502,15 @@ func (s *system) exec(a Action) {
 		pend := s.g.Pending()
 		if !a.OK {
 			pend = s.errEligible(pend)
+		}
+		if a.Match != "" {
+			var m []fakeprom.Pending
+			for _, p := range pend {
+				if strings.Contains(p.Key, a.Match) {
+					m = append(m, p)
+				}
+			}
+			pend = m
 		}
 		if len(pend) == 0 {
 			s.skipped++
@@ -1058,6 +1068,93 @@ func TestPropMachine(t *testing.T) {
 	if inconclusive > 3 {
 		t.Fatalf("%d inconclusive cases - not a verdict", inconclusive)
 	}
+}
+
+// ---------------------------------------------------------------------------
+// scripted scenario: overlapping range windows, a failing slice and a busy pool
+
+// genOverlap builds an action list (run by the same machine executor) around the one situation in which two jobs with
+// the same key sit in the worker pool: range query A over nA slices and range query B over a window that evaluates
+// exactly the points of A's first slice are both waiting, every worker is busy or about to be (other questions are
+// queued), and then a slice of A fails - the shared one itself, or another one, which makes A cancel the shared one.
+// What the server may see at any moment is unchanged: at most `concurrency` requests, no key twice, B's and everybody
+// else's answers complete.
+func genOverlap(t *rapid.T) Case {
+	c := Case{Kind: "machine"}
+	nA := rapid.IntRange(2, 3).Draw(t, "slicesA")
+	c.Concurrency = nA + rapid.IntRange(1, 2).Draw(t, "spareWorkers")
+	c.Questions = []Question{
+		{Kind: "range", Name: "r1", Slices: nA},
+		{Kind: "range", Name: "r1", Len: 7200 - rangeStep}, // [0, 1h55]: the very points of A's first slice
+	}
+	fillers := []Question{{Kind: "query", Name: "q1"}, {Kind: "query", Name: "q2"}, {Kind: "metadata", Name: "m1"},
+		{Kind: "metadata", Name: "m2"}, {Kind: "config"}, {Kind: "flags"}}
+	fillers = rapid.Permutation(fillers).Draw(t, "fillers")[:min(len(fillers), c.Concurrency+rapid.IntRange(0, 2).Draw(t, "moreFillers"))]
+	c.Questions = append(c.Questions, fillers...)
+	c.Actions = append(c.Actions, Action{Op: "start", Q: 0})
+	startB := Action{Op: "start", Q: 1}
+	bFirst := rapid.IntRange(0, 3).Draw(t, "bBeforeFillers") > 0
+	if bFirst {
+		c.Actions = append(c.Actions, startB)
+	}
+	for i := range fillers {
+		c.Actions = append(c.Actions, Action{Op: "start", Q: 2 + i})
+		if rapid.IntRange(0, 3).Draw(t, fmt.Sprintf("again%d", i)) == 0 {
+			c.Actions = append(c.Actions, Action{Op: "start", Q: 2 + i})
+		}
+	}
+	if !bFirst {
+		c.Actions = append(c.Actions, startB)
+	}
+	if rapid.Bool().Draw(t, "secondB") {
+		c.Actions = append(c.Actions, startB)
+	}
+	// the slice of A that fails: the shared first one, or another one
+	failing := rangeBase
+	if rapid.Bool().Draw(t, "failOther") {
+		failing = rangeBase + int64(rapid.IntRange(1, nA-1).Draw(t, "failSlice"))*7200
+	}
+	c.Actions = append(c.Actions, Action{Op: "release", OK: false, Match: fmt.Sprintf("query=r1|start=%d|", failing),
+		Err: rapid.IntRange(0, len(errAnswers)-1).Draw(t, "err")})
+	for i, n := 0, rapid.IntRange(0, 6).Draw(t, "moreReleases"); i < n; i++ {
+		c.Actions = append(c.Actions, Action{Op: "release", OK: rapid.IntRange(0, 4).Draw(t, fmt.Sprintf("ok%d", i)) > 0,
+			Pick: rapid.IntRange(0, 11).Draw(t, fmt.Sprintf("pick%d", i)), Err: rapid.IntRange(0, len(errAnswers)-1).Draw(t, fmt.Sprintf("err%d", i))})
+	}
+	return c
+}
+
+func TestPropOverlapWindows(t *testing.T) {
+	rec := vstat.New(t, prop)
+	inconclusive := 0
+	rapid.Check(t, func(rt *rapid.T) {
+		c := genOverlap(rt)
+		s, err := runMachine(c)
+		if errors.Is(err, errHang) {
+			err = confirmHang(c)
+		} else if err != nil && !errors.Is(err, errInconclusive) {
+			err = confirmSafety(c, err)
+		}
+		if errors.Is(err, errInconclusive) {
+			rec.Case("inconclusive:overlap", false, "", nil)
+			rec.Count("inconclusive_cases", 1)
+			inconclusive++
+			t.Logf("inconclusive: %v", err)
+			if inconclusive > 3 {
+				rt.Fatalf("too many inconclusive cases - not a verdict")
+			}
+			return
+		}
+		st := s.g.Stats()
+		c.Class = fmt.Sprintf("overlap:c=%d:slicesA=%d", c.Concurrency, c.Questions[0].Slices)
+		// non-trivial: the pool was full at some point and a request of the range queries was cancelled by the client
+		rec.Case(c.Class, st.MaxInFlight >= c.Concurrency && st.Aborted > 0, caseKey(c), func() any { return c })
+		rec.Count("overlap_requests_aborted_by_client", int64(st.Aborted))
+		rec.Count("overlap_settle_misses", int64(s.settleMisses))
+		if err != nil {
+			rec.Fail(c, err)
+			rt.Fatalf("%s", wsRe.ReplaceAllString(err.Error(), " "))
+		}
+	})
 }
 
 // ---------------------------------------------------------------------------
